@@ -344,6 +344,7 @@ func RecordTokenization(duration time.Duration, querySize int, err error) {
 	// two goroutines record concurrently, so retry with compare-and-swap.
 	for {
 		currentMin := atomic.LoadInt64(&globalMetrics.minQuerySize)
+		verifGate(1, currentMin)
 		if currentMin != -1 && int64(querySize) >= currentMin {
 			break
 		}
@@ -354,6 +355,7 @@ func RecordTokenization(duration time.Duration, querySize int, err error) {
 
 	for {
 		currentMax := atomic.LoadInt64(&globalMetrics.maxQuerySize)
+		verifGate(2, currentMax)
 		if int64(querySize) <= currentMax {
 			break
 		}
